@@ -381,9 +381,9 @@ def run(rep, tier, seed, replay, prop, names, relevant, rule, rf1=False, mc_quic
     # + "the in-sync set changes while records are in flight", "a replication response is delivered late" and
     # "a replica that led and then followed leads again"
     for i, fam in enumerate(('isr', 'late', 'again')):
-        pool += core.tlc_simulate('MC_ReplicationFam2.tla', 'Sim_ReplicationFam2_%s.cfg' % fam, 500 if tier == 'quick' else 5000,
+        pool += core.tlc_simulate('MC_ReplicationFam2.tla', 'Sim_ReplicationFam2_%s.cfg' % fam, 500 if tier == 'quick' else 2000,
                                   18, seed + 7 + i, timeout=2400)
-    sims, nfeat = select(pool, 150 if tier == 'quick' else 1800, rng)
+    sims, nfeat = select(pool, 150 if tier == 'quick' else 1500, rng)
     rep.cov['selection'] = {'pool': len(pool), 'selected': len(sims), 'features_covered': nfeat}
     behaviours += [to_stimulus(b, i + 1) for i, b in enumerate(sims) if len(b) > 1]
     with core.scratch(prop.lower()) as d:
